@@ -242,6 +242,10 @@ def mechanism(body, hist, te, tg):
     if is_exit and got_ignored and not exp_ignored and 'return-value-in-handler' in body.get('feat', ()):
         return 'close-return-value-raises-ignored-exit', info
     mode_t = o.endswith('/t')
+    # an async-generator operation can pass through several awaits: the suspension that matters may lie inside the
+    # operation, not before it
+    multi_step = oe[0] == 'steps' and len(oe[1]) > 1
+    finally_somewhere = any('finally' in c or '+f' in c for c in ctx.values())
     thrown_before = set()
     for ent in te[1:k]:
         eo = _opkey(ent[0])
@@ -284,12 +288,12 @@ def mechanism(body, hist, te, tg):
                     return 'delegate-exception-context-in-handler'
             if fk == 'ctx-missing':
                 # (F) suspended by a yield inside a finally clause that runs because of an exception
-                if in_finally or unknown:
+                if in_finally or unknown or (multi_step and finally_somewhere):
                     return 'yield-in-finally-clears-exc-info'
                 # (B1) the exception thrown in (or GeneratorExit) does not get the generator's handled exception as context
                 if (is_throw or is_exit) and owner in (THROWN_NAME.get(oparg), 'GeneratorExit', 'log'):
                     return 'throw-context-in-handler'
-            if fk == 'ctx-missing' and owner in thrown_before:
+            if fk in ('ctx-missing', 'ctx-other') and owner in thrown_before:
                 # (B1/M, delayed) an exception thrown in by an earlier operation was parked (e.g. by an __aexit__ that
                 # awaits) and resurfaces now, still without the context CPython gave it
                 return 'throw-context-in-handler'
